@@ -273,6 +273,20 @@ class C17(Prop):
                 return Mismatch('cov of fewer than two rows should be null/NaN', cov, None, 'C17:cov')
         elif cov is None or abs(Fraction(cov) - want) > Fraction(1e-9) * Fraction(mag) ** 2:
             return Mismatch('cov outside tolerance of the two-pass sample covariance', cov, float(want), 'C17:cov')
+        # the aggregate spelling of the same summaries (df.agg(corr / covar_samp / covar_pop)) must agree with df.cov / df.corr
+        try:
+            from pysparkling.sql import functions as Fn
+            row = df.agg(Fn.covar_samp('a', 'b'), Fn.covar_pop('a', 'b')).collect()
+            agg_samp, agg_pop = (row[0][0], row[0][1]) if row else (None, None)
+        except Exception as e:  # pylint: disable=broad-except
+            return Mismatch('df.agg(covar_samp, covar_pop) raised', exc(e), spec, 'C17:agg-cov:exc', relation='spec')
+        ctx.note('agg_cov_checked')
+        for nm, got_, want_ in (('covar_samp', agg_samp, fr(spec['covarSamp'])), ('covar_pop', agg_pop, fr(spec['covarPop']))):
+            if want_ is None:
+                if got_ is not None and not (isinstance(got_, float) and math.isnan(got_)):
+                    return Mismatch('df.agg(%s) of too few rows should be null/NaN' % nm, got_, None, 'C17:agg-cov')
+            elif got_ is None or abs(Fraction(got_) - want_) > Fraction(1e-9) * Fraction(mag) ** 2:
+                return Mismatch('df.agg(%s) outside tolerance of the two-pass value' % nm, got_, float(want_), 'C17:agg-cov')
         mx, my, ck = fr(spec['mkX']), fr(spec['mkY']), fr(spec['ck'])
         if spec['n'] >= 2 and mx > 0 and my > 0:
             try:
